@@ -4,7 +4,9 @@ turns the JSON description of a subtitle tree into real gzip XML files,
 symlinks and directories below the worker's cwd; the ops then call the real
 `pyndl.corpus` functions and read the files they wrote back as UTF-8 text.
 """
+import contextlib
 import gzip
+import io
 import os
 import shutil
 import tempfile
@@ -132,8 +134,12 @@ def op_corpus_create(t):
         skip = {top, '__outside__'}
         before = snapshot(root, skip)
         res = {'raised': None}
+        # X1: with t['verbose'] the `if verbose:` blocks run as well (start_time / duration, progress every
+        # 1000 files); what they print is captured in memory
+        vkw = {'verbose': True} if t.get('verbose') else {}
         try:
-            ret = corpus.create_corpus_from_gz(directory, outfile, n_threads=int(t['n_threads']))
+            with contextlib.redirect_stdout(io.StringIO()):
+                ret = corpus.create_corpus_from_gz(directory, outfile, n_threads=int(t['n_threads']), **vkw)
             if ret is not None:
                 res['returned'] = repr(ret)[:100]
         except Exception as e:  # noqa
